@@ -140,6 +140,83 @@ def _chunk(arg: tuple) -> tuple[int, int, int, int, list]:
     return acc, rej, subs, drift, out
 
 
+# characters outside the representatives the layouts are rendered with: one per class that text-processing code is
+# known to treat specially (stripped, normalised, taken for a line end, taken for a blank, re-encoded, escaped)
+ZOO = {
+    'bom': '\ufeff', 'nbsp': '\xa0', 'zwsp': '\u200b', 'zwj': '\u200d', 'lrm': '\u200e', 'rlo': '\u202e', 'shy': '\xad',
+    'nel': '\x85', 'ls': '\u2028', 'ps': '\u2029', 'vt': '\x0b', 'ff': '\x0c', 'fs': '\x1c', 'gs': '\x1d', 'rs': '\x1e',
+    'us': '\x1f', 'nul': '\x00', 'del': '\x7f', 'esc': '\x1b', 'bel': '\x07', 'bs': '\x08', 'cr': '\r', 'tab': '\t',
+    'emoji': '\U0001f600', 'cjk': '\u6f22', 'combining': 'e\u0301', 'dotted-I': '\u0130', 'eszett': '\xdf',
+    'fullwidth-digit': '\uff11', 'arabic-digit': '\u0663', 'ideographic-space': '\u3000', 'en-quad': '\u2000',
+    'backslash': '\\', 'quote': '"', 'semicolon': ';', 'star': '*', 'hash': '#', 'escaped-quote': '\\"', 'escaped-n': '\\n',
+    'private-use': '\ue000', 'noncharacter': '\uffff', 'lone-surrogate': '\ud800', 'mongolian-vs': '\u180e',
+}
+
+ZOO_DOCS = [
+    '; block comment\n2000-01-01 open Assets:Abc USD ; inline\n    key: "meta value"\n* heading line\n',
+    '2000-01-01 * "payee" "narration" #tag ^link\n    ; indented comment\n    Assets:Abc  1.50 USD {2 EUR, 2000-01-01, "label"} @ 3 CAD ; pc\n'
+    '        pk: TRUE\n    Assets:Xyz\n',
+    'option "title" "value"\ninclude "file.bean"\nplugin "mod" "config"\npushtag #tg\npoptag #tg\n2000-01-01 custom "type" "s" 1 Assets:Abc\n',
+    '2000-01-01 note Assets:Abc "text"\n2000-01-01 event "type" "desc"\n2000-01-01 query "name" "select"\n'
+    '2000-01-01 document Assets:Abc "/path"\n\n; tail\n',
+]
+
+
+def _zoo_chunk(arg: tuple) -> tuple[int, int, list]:
+    items = arg
+    acc = rej = 0
+    out = []
+    for text, (a, b), ttype, cname in items:
+        ch = ZOO[cname]
+        for where, k in (('start', a), ('inside', a + max(1, (b - a) // 2) if b - a > 1 else None), ('end', b)):
+            if k is None:
+                continue
+            t2 = text[:k] + ch + text[k:]
+            st, findings, _ = check_text(t2)
+            if st != 'accepted':
+                rej += 1
+                continue
+            acc += 1
+            for kind, msg in findings:
+                out.append((f'C01/chars/{ttype}/{cname}/{kind}' if not kind.startswith('target-outer') else f'C01/{kind}',
+                            f'{cname} ({ch!r}) at the {where} of a {ttype} token: {msg}', t2))
+    return acc, rej, out
+
+
+def charzoo_part(rep: common.Reporter, tier: str, sample_texts: list[str]) -> dict:
+    """Every token of the base documents x every character class x (start, inside, end of the token): texts the
+    parser accepts must be printed back unchanged, as a whole and model by model."""
+    import random
+    rng = random.Random(common.seed() + 11)
+    texts = list(ZOO_DOCS) + sample_texts
+    items = []
+    for text in texts:
+        try:
+            f = tree.parse(text)
+        except Exception:  # noqa: BLE001
+            continue
+        pos = 0
+        for t in f.token_store:
+            n = len(t.raw_text)
+            if n:
+                for cname in ZOO:
+                    items.append((text, (pos, pos + n), type(t).__name__, cname))
+            pos += n
+    if tier == 'quick' and len(items) > 9000:
+        head = [it for it in items if it[0] in ZOO_DOCS[:2]]
+        rest = [it for it in items if it[0] not in ZOO_DOCS[:2]]
+        items = head + rng.sample(rest, max(0, 9000 - len(head)))
+    acc = rej = 0
+    with mp.Pool(16) as pool:
+        for a, r, out in common.gmap(pool, rep, _zoo_chunk, list(common.chunked(items, 150))):
+            acc += a
+            rej += r
+            for fp, msg, t2 in out:
+                rep.violation(fp, {'what': msg, 'text': t2})
+    return {'base_documents': len(texts), 'character_classes': len(ZOO), 'token_x_class_cases': len(items),
+            'accepted_texts': acc, 'rejected_texts_skipped': rej}
+
+
 def main(prop: str, tier: str) -> int:
     rep = common.Reporter('C01', tier)
     seed = common.seed()
@@ -205,6 +282,11 @@ def main(prop: str, tier: str) -> int:
                 acc += 1
             for kind, msg in findings:
                 rep.violation(f'C01/big/{kind}', {'what': msg, 'text_head': text[:300], 'chars': len(text)})
+    rngz = __import__('random').Random(seed + 5)
+    zoo_samples = [doclib.render(d, rngz.randrange(12)) for d in rngz.sample(pool_docs, min(len(pool_docs), 6 if tier == 'quick' else 60))] \
+        if pool_docs else []
+    zoo = charzoo_part(rep, tier, zoo_samples)
+    acc += zoo['accepted_texts']
     pl = postlex_replay(tier, rep)
     try:
         from checks import builder
@@ -216,12 +298,12 @@ def main(prop: str, tier: str) -> int:
         'model_builder_traces': bl,
         'traces_validated_against_impl': acc + pl.get('replayed', 0) + bl.get('behaviours', 0),
         'accepted_texts': acc, 'rejected_texts_skipped': rej, 'sub_model_slices_checked': subs,
-        'layout_acceptance_drift': drift, 'runs': info, 'large_documents': big, 'postlex': pl,
+        'character_classes': zoo, 'layout_acceptance_drift': drift, 'runs': info, 'large_documents': big, 'postlex': pl,
         'samples': samples, 'exhaustive': True,
         'rule': 'every Layout.tla state up to the listed number of lines is rendered and parsed in both attribution modes',
     })
     rep.assumptions += [
-        'characters inside lexemes are representatives (a few concrete directives per structural class); the regex lexer is exercised, not modelled',
+        'characters inside lexemes are representatives (a few concrete directives per structural class) plus one character per listed class at the start, inside and end of every token of a few base documents; the regex lexer is exercised, not modelled',
         'texts the parser rejects are skipped (the property is conditional on acceptance)',
     ]
     return rep.finish()
